@@ -293,6 +293,19 @@ Proof.
   intros A R x y H. induction H as [x y H|x y z H1 IH1 H2 IH2]; [apply rt_step; exact H | apply rt_trans with (y := y); assumption].
 Qed.
 
+Lemma clos_trans_mono : forall {A} (R R' : relation A), (forall a b, R a b -> R' a b) ->
+  forall a b, clos_trans A R a b -> clos_trans A R' a b.
+Proof.
+  intros A R R' H a b Hab. induction Hab as [a b Hab|a b c _ IH1 _ IH2]; [apply t_step; apply H; exact Hab | apply t_trans with (y := b); assumption].
+Qed.
+
+Lemma clos_trans_last : forall {A} (R : relation A) a b, clos_trans A R a b -> exists q, clos_refl_trans A R a q /\ R q b.
+Proof.
+  intros A R a b H. induction H as [a b H|a b c H0 _ _ [q [H1 H2]]].
+  - exists a. split; [apply rt_refl | exact H].
+  - exists q. split; [|exact H2]. apply rt_trans with (y := b); [apply clos_t_in_rt; exact H0 | exact H1].
+Qed.
+
 Lemma gfd_circular_sound : forall fuel reg n ref,
   get_fixture_dependencies fuel reg n ref = Err (ValidationError RFxCircular) ->
   stack_reaches (reg_find reg) ref n ->
